@@ -7,7 +7,7 @@ NAME=$1; shift
 P=/verif/seeded/$NAME/patch.diff
 WT=/tmp/wt/seedrun-$NAME
 git -C /repo worktree add -q --detach $WT HEAD || exit 2
-if ! git -C $WT apply $P; then echo "$NAME: patch does not apply"; git -C /repo worktree remove --force $WT; exit 2; fi
+if ! git -C $WT apply --3way $P 2>/dev/null; then echo "$NAME: patch does not apply"; git -C /repo worktree remove --force $WT; exit 2; fi
 for PID in "$@"; do
   out=$(cd /verif && VERIF_REPO=$WT VERIF_ALT=$NAME timeout 1800 bin/check $PID --tier ${SEED_TIER:-quick} 2>/dev/null)
   rc=$?
